@@ -127,7 +127,7 @@ def gen_graph(rnd, n):
 def gen_case(rnd, combo=None, dynamics=None, regime=None, more=None):
     combo = combo or rnd.choice(['alone', 'alone', 'inherit', 'inherit', 'inherit_rev', 'sequence', 'sequence'])
     dynamics = dynamics or rnd.choice(['stochastic', 'stochastic', 'synchronous'])
-    regime = regime or rnd.choice(['growth', 'decay', 'mixed', 'mixed', 'mixed'])
+    regime = regime or rnd.choice(['growth', 'decay', 'mixed', 'mixed', 'mixed', 'mixed', 'static'])
     c = rnd.randrange(0, 4)
     if regime == 'decay':
         n = rnd.randrange(0, 9)
@@ -141,6 +141,8 @@ def gen_case(rnd, combo=None, dynamics=None, regime=None, more=None):
         pa, pd = rnd.choice(hi), 0.0
     elif regime == 'decay':
         pa, pd = 0.0, rnd.choice([1.0, 2.0, 4.0] if not sync else [1.0])
+    elif regime == 'static':
+        pa, pd = 0.0, 0.0         # both rates zero: the population only changes through other components, the locus still mirrors it
     else:
         pa, pd = rnd.choice(hi), rnd.choice(hi)
     if regime == 'decay':
@@ -617,7 +619,7 @@ class H(Harness):
         # directed: every combination x dynamics x regime first, then random
         for combo in COMBOS:
             for dynamics in ('stochastic', 'synchronous'):
-                for regime in ('growth', 'decay', 'mixed'):
+                for regime in ('growth', 'decay', 'mixed', 'static'):
                     out.append(gen_case(rnd, combo, dynamics, regime))
         while len(out) < n:
             out.append(gen_case(rnd))
